@@ -1,16 +1,33 @@
 (* Proofs/RoundTripRace.v — C08, race reports: what print_race
    (Spec/RacePrinter.v) writes is read back by the race sub-state-machine of
-   the scanner (Model/Scan.v) as race_snapshot_of.
+   the scanner (Model/Scan.v) as race_snapshot_of, and ScanSnapshot
+   (Model/ScanSnapshot.v) returns it, for every stall-free delivery schedule.
 
-   1. generic facts on byte strings
-   2. numbers: the zero-padded address
-   3. the header lines of operation and creation sections (matchers)
-   4. a creation section for an unknown goroutine is an error (C08_unknown_creator)
-   5. projections of race_snapshot_of
-   ... *)
+    1. generic facts on byte strings
+    2. numbers: the zero-padded address (parse_uint_hex012)
+    3. the header lines of operation and creation sections (matchers)
+    4. one physical line through the first two stages of scan
+    5. a creation header for an unknown goroutine (unknown_creator)
+    6. projections of race_snapshot_of
+    7. the two lines of a frame (frame_rt: what is needed from C01)
+    8. Steps: sequences of consumed lines
+    9. an operation section; all the operation sections (ops_steps)
+   10. a creation section
+   11. the goroutine a creation section updates (creation_target)
+   12. all the creation sections, the closing separator (race_steps)
+   13. the ScanSnapshot loop (fidelity_frames)
+   14. from the computable predicates wf_frame / wf_race / junk_ok (fidelity)
+   15. a report without creation section (no_creation_section)
+   16. a report with a creation section for an unknown goroutine
+       (unknown_creator_report)
+
+   Everything is proved in full (no partial result). *)
 From PP Require Import Base.Bytes Base.BytesX Base.Num Base.GoResult Model.Types Model.Lines
-  Model.FuncInit Model.ParseArgs Model.Scan Spec.Printer Spec.RacePrinter
-  Proofs.RoundTripNum Proofs.ScanInv.
+  Model.FuncInit Model.ParseArgs Model.Scan Model.Reader Model.ScanSnapshot Model.Process
+  Spec.Printer Spec.RacePrinter Spec.ReaderSpec
+  Proofs.RoundTripNum Proofs.ScanInv Proofs.ReaderBase Proofs.ReaderProofs.
+(* the line-level round trip of C01, used in section 14 only (qualified names) *)
+From PP Require Proofs.RoundTripLines Proofs.RoundTripScan.
 From Coq Require Import String.
 
 Local Open Scope N_scope.
@@ -352,6 +369,14 @@ Proof.
   destruct (nth_error (pr_ops r) i) as [op|] eqn:E.
   - rewrite (snapshot_nth r i op E) in H. injection H as <-. apply race_goroutine_of_First.
   - apply nth_error_None in E. rewrite <- snapshot_length in E. apply nth_error_None in E. congruence.
+Qed.
+
+(* Snapshot.IsRace(): the address of the first goroutine is not 0 *)
+Theorem snapshot_is_race : forall r op ops,
+  pr_ops r = op :: ops -> is_race (race_snapshot_of r) = negb (ro_addr op =? 0).
+Proof.
+  intros r op ops H. unfold race_snapshot_of. rewrite H. cbn [is_race].
+  rewrite race_goroutine_of_RaceAddr. reflexivity.
 Qed.
 
 (* the creation sections: none for this goroutine / exactly one *)
@@ -865,4 +890,708 @@ Proof.
   - pose proof (cr_frames_steps (rc_frames c) G i g0 g0 (race_state_text (rc_running c)) []
                   gotRaceGoroutineHeader (or_introl eq_refl) Hnth Hall) as H.
     cbn [app] in H. destruct (rc_frames c) as [|f fs] eqn:E; [congruence|]. exact H.
+Qed.
+
+(* ------------------------------------------------------------------ *)
+(* 11. the goroutine a creation section updates                        *)
+(* ------------------------------------------------------------------ *)
+
+(* race_snapshot_of, with the First flag of the head as a parameter *)
+Fixpoint gl (cs : list p_race_creation) (first : bool) (ops : list p_race_op) : list Goroutine :=
+  match ops with
+  | [] => []
+  | op :: ops' => race_goroutine_of cs first op :: gl cs false ops'
+  end.
+
+Lemma gl_false : forall cs ops, gl cs false ops = map (race_goroutine_of cs false) ops.
+Proof. intros cs ops. induction ops as [|op ops IH]; [reflexivity|]. cbn [gl map]. rewrite IH. reflexivity. Qed.
+
+Lemma snapshot_gl : forall ops cs, race_snapshot_of (mkPRace ops cs) = gl cs true ops.
+Proof.
+  intros ops cs. unfold race_snapshot_of. cbn [pr_ops pr_creations].
+  destruct ops as [|op ops]; [reflexivity|]. cbn [gl]. rewrite gl_false. reflexivity.
+Qed.
+
+Lemma race_creation_of_app1 : forall gid cs c state calls,
+  race_creation_of gid (cs ++ [c]) state calls =
+  if rc_gid c =? gid
+  then (race_state_text (rc_running c),
+        snd (race_creation_of gid cs state calls) ++ map call_of_frame (rc_frames c))
+  else race_creation_of gid cs state calls.
+Proof.
+  intros gid cs c. induction cs as [|c1 cs IH]; intros state calls.
+  - cbn [app race_creation_of]. destruct (rc_gid c =? gid); reflexivity.
+  - cbn [app race_creation_of]. destruct (rc_gid c1 =? gid); apply IH.
+Qed.
+
+Lemma race_goroutine_of_app_other : forall cs c first op,
+  rc_gid c <> ro_gid op -> race_goroutine_of (cs ++ [c]) first op = race_goroutine_of cs first op.
+Proof.
+  intros cs c first op H. rewrite !race_goroutine_of_eq, race_creation_of_app1.
+  apply N.eqb_neq in H. rewrite H. reflexivity.
+Qed.
+
+Lemma race_goroutine_of_app_same : forall cs c first op,
+  rc_gid c = ro_gid op ->
+  race_goroutine_of (cs ++ [c]) first op =
+  cr_goroutine (race_goroutine_of cs first op) (race_state_text (rc_running c)) (map call_of_frame (rc_frames c)).
+Proof.
+  intros cs c first op H. rewrite !race_goroutine_of_eq, race_creation_of_app1.
+  apply N.eqb_eq in H. rewrite H. reflexivity.
+Qed.
+
+Lemma gl_app_other : forall cs c ops first,
+  (forall op, In op ops -> rc_gid c <> ro_gid op) -> gl (cs ++ [c]) first ops = gl cs first ops.
+Proof.
+  intros cs c ops. induction ops as [|op ops IH]; intros first H; [reflexivity|].
+  cbn [gl]. rewrite race_goroutine_of_app_other by (apply H; left; reflexivity).
+  rewrite IH by (intros op' Hop'; apply H; right; exact Hop'). reflexivity.
+Qed.
+
+Lemma find_id_S : forall id l k, find_id id (S k) l = option_map S (find_id id k l).
+Proof.
+  intros id l. induction l as [|g l IH]; intros k; [reflexivity|].
+  cbn [find_id]. destruct (Z.eqb (ID g) (Z.of_N id)); [reflexivity|]. apply IH.
+Qed.
+
+Lemma distinct_N_cons : forall x l, distinct_N (x :: l) = true -> ~ In x l /\ distinct_N l = true.
+Proof.
+  intros x l H. cbn [distinct_N] in H. apply andb_true_iff in H as [H1 H2]. split; [|exact H2].
+  intros Hin. apply negb_true_iff in H1.
+  assert (Ht : existsb (N.eqb x) l = true) by (apply existsb_exists; exists x; split; [exact Hin|apply N.eqb_refl]).
+  congruence.
+Qed.
+
+(* with pairwise distinct operation ids, the creation section of a goroutine
+   that took part in some operation finds that goroutine, and updating it
+   gives the snapshot of the report extended with that section *)
+Lemma creation_target : forall cs c ops first,
+  distinct_N (map ro_gid ops) = true ->
+  existsb (fun op => ro_gid op =? rc_gid c) ops = true ->
+  exists i g0,
+    find_id (rc_gid c) 0 (gl cs first ops) = Some i /\
+    nth_error (gl cs first ops) i = Some g0 /\
+    upd_nth i (fun _ => cr_goroutine g0 (race_state_text (rc_running c)) (map call_of_frame (rc_frames c)))
+            (gl cs first ops) = gl (cs ++ [c]) first ops.
+Proof.
+  intros cs c ops. induction ops as [|op ops IH]; intros first Hd Hex; [discriminate Hex|].
+  cbn [map] in Hd. apply distinct_N_cons in Hd as [Hnin Hd]. cbn [existsb] in Hex.
+  destruct (ro_gid op =? rc_gid c) eqn:E.
+  - apply N.eqb_eq in E. exists 0%nat, (race_goroutine_of cs first op).
+    split; [|split].
+    + cbn [gl find_id]. rewrite race_goroutine_of_ID, E, Z.eqb_refl. reflexivity.
+    + reflexivity.
+    + cbn [gl upd_nth]. rewrite <- race_goroutine_of_app_same by (symmetry; exact E).
+      rewrite gl_app_other; [reflexivity|].
+      intros op' Hop' C. apply Hnin. rewrite E, C. apply in_map. exact Hop'.
+  - cbn [orb] in Hex. apply N.eqb_neq in E.
+    destruct (IH false Hd Hex) as (i & g0 & H1 & H2 & H3).
+    exists (S i), g0. split; [|split].
+    + cbn [gl find_id]. rewrite race_goroutine_of_ID.
+      destruct (Z.eqb_spec (Z.of_N (ro_gid op)) (Z.of_N (rc_gid c))) as [C|C].
+      * apply N2Z.inj in C. contradiction.
+      * rewrite find_id_S, H1. reflexivity.
+    + exact H2.
+    + cbn [gl upd_nth]. rewrite H3, race_goroutine_of_app_other by (intros C; apply E; symmetry; exact C).
+      reflexivity.
+Qed.
+
+(* ------------------------------------------------------------------ *)
+(* 12. all the creation sections and the closing separator             *)
+(* ------------------------------------------------------------------ *)
+
+(* what the fidelity theorem needs of one creation section *)
+Definition creation_ok (ops : list p_race_op) (c : p_race_creation) : Prop :=
+  rc_gid c < dec_limit /\ existsb (fun op => ro_gid op =? rc_gid c) ops = true /\
+  rc_frames c <> [] /\ Forall frame_rt (rc_frames c).
+
+Lemma one_creation_steps : forall ops cs1 c stt idx,
+  stt = betweenRaceOperations \/ stt = betweenRaceGoroutines ->
+  distinct_N (map ro_gid ops) = true -> creation_ok ops c ->
+  exists idx',
+    Steps (mkSS (gl cs1 true ops) stt [] idx) (race_creation_lines c)
+          (mkSS (gl (cs1 ++ [c]) true ops) gotRaceGoroutineFile [] idx').
+Proof.
+  intros ops cs1 c stt idx Hst Hd (Hn & Hex & Hne & Hall).
+  destruct (creation_target cs1 c ops true Hd Hex) as (i & g0 & H1 & H2 & H3).
+  exists i. rewrite <- H3. apply creation_section_steps; assumption.
+Qed.
+
+Lemma creations_steps : forall ops cs2 cs1 stt idx,
+  stt = betweenRaceOperations \/ stt = betweenRaceGoroutines ->
+  distinct_N (map ro_gid ops) = true -> cs2 <> [] -> Forall (creation_ok ops) cs2 ->
+  exists idx',
+    Steps (mkSS (gl cs1 true ops) stt [] idx) (race_creations_lines cs2)
+          (mkSS (gl (cs1 ++ cs2) true ops) gotRaceGoroutineFile [] idx').
+Proof.
+  intros ops cs2. induction cs2 as [|c cs2 IH]; intros cs1 stt idx Hst Hd Hne Hall; [congruence|].
+  inversion Hall as [|c' cs' Hc Hcs]; subst.
+  destruct (one_creation_steps ops cs1 c stt idx Hst Hd Hc) as (i1 & S1).
+  destruct cs2 as [|c2 cs2].
+  - exists i1. exact S1.
+  - destruct (IH (cs1 ++ [c]) betweenRaceGoroutines i1 (or_intror eq_refl) Hd ltac:(discriminate) Hcs) as (i2 & S2).
+    exists i2. rewrite <- app_assoc in S2. cbn [app] in S2.
+    change (race_creations_lines (c :: c2 :: cs2))
+      with (race_creation_lines c ++ [[]] ++ race_creations_lines (c2 :: cs2)).
+    apply (Steps_app _ _ _ _ _ S1).
+    apply (Steps_cons _ _ (mkSS (gl (cs1 ++ [c]) true ops) betweenRaceGoroutines [] i1));
+      [reflexivity|reflexivity|reflexivity|exact S2].
+Qed.
+
+(* the whole report, from the initial state to [done] *)
+Definition race_ok (r : p_race) : Prop :=
+  pr_ops r <> [] /\ Forall op_ok (pr_ops r) /\ distinct_N (map ro_gid (pr_ops r)) = true /\
+  pr_creations r <> [] /\ Forall (creation_ok (pr_ops r)) (pr_creations r).
+
+Theorem race_steps : forall r, race_ok r ->
+  exists idx, Steps ss0 (race_lines r) (mkSS (race_snapshot_of r) done [] idx).
+Proof.
+  intros [ops cs] (Hne & Hops & Hd & Hcne & Hcs). cbn [pr_ops pr_creations] in *.
+  destruct ops as [|op ops]; [congruence|].
+  destruct (ops_steps op ops Hops) as (i1 & S1).
+  rewrite snapshot_gl in S1.
+  destruct (creations_steps (op :: ops) cs [] betweenRaceOperations i1 (or_introl eq_refl) Hd Hcne Hcs) as (i2 & S2).
+  cbn [app] in S2.
+  exists i2. unfold race_lines. cbn [pr_ops pr_creations]. rewrite snapshot_gl.
+  rewrite app_assoc. apply (Steps_app _ _ _ _ _ S1). apply (Steps_app _ _ _ _ _ S2).
+  apply Steps_one; reflexivity.
+Qed.
+
+(* ------------------------------------------------------------------ *)
+(* 13. ScanSnapshot on a stream that contains a report                 *)
+(* ------------------------------------------------------------------ *)
+
+Lemma scan_loop_S : forall f ls,
+  scan_loop (S f) ls =
+  if state_eqb (st (l_ss ls)) done then Ok (ls, ENil, None) else
+  match read_line (l_r ls) (l_src ls) with
+  | Panic m => Panic m
+  | Ok (d, e, r', src', evs) =>
+      let tr := l_trace ls ++ evs in
+      let err0 := match e with None => ENil | Some x => EIo x end in
+      match d with
+      | [] =>
+          let ls' := mkLoop (l_ss ls) r' src' (l_fwd ls) tr (l_lines ls) in
+          match e with
+          | None => scan_loop f ls'
+          | Some _ => Ok (ls', err0, None)
+          end
+      | _ =>
+          let tr := tr ++ [EvLine d] in
+          match scan (l_ss ls) d with
+          | Panic m => Panic m
+          | Ok (ss', l, e1) =>
+              let err := match e1 with
+                         | Some x => if io_is_nil_or_eof e then EScan x else err0
+                         | None => err0
+                         end in
+              if l then
+                let ls' := mkLoop ss' r' src' (l_fwd ls) tr (S (l_lines ls)) in
+                match err with
+                | ENil => scan_loop f ls'
+                | _ => Ok (ls', err, None)
+                end
+              else if negb (state_eqb (st ss') looking) then
+                Ok (mkLoop ss' r' src' (l_fwd ls) tr (S (l_lines ls)), err, Some (d ++ pending r'))
+              else
+                let ls' := mkLoop ss' r' src' (l_fwd ls ++ d) (tr ++ [EvWrite d]) (S (l_lines ls)) in
+                match err with
+                | ENil => scan_loop f ls'
+                | _ => Ok (ls', err, None)
+                end
+          end
+      end
+  end.
+Proof. reflexivity. Qed.
+
+(* reading one complete line off a stream *)
+Lemma read_complete_line : forall r src l rest0,
+  rinv_s r src -> stall_free (sched src) -> no_byte LF l = true ->
+  stream r src = (l ++ [LF]) ++ rest0 ->
+  exists r' src' evs,
+    read_line r src = Ok (l ++ [LF], None, r', src', evs) /\
+    rinv_s r' src' /\ stall_free (sched src') /\ final src' = final src /\ stream r' src' = rest0.
+Proof.
+  intros r src l rest0 Hr Hsf Hl Hs.
+  destruct (read_line_spec r src Hr Hsf) as (r' & src' & evs & Q1 & Q2 & Q3 & Q4 & Q5 & _).
+  cbv zeta in Q1, Q5. rewrite Hs in Q1, Q5.
+  apply no_byte_In in Hl.
+  rewrite <- app_assoc in Q1, Q5. cbn [app] in Q1, Q5.
+  rewrite (first_line_lf l rest0 Hl) in Q1, Q5.
+  unfold line_err in Q1. rewrite (has_lf_split l rest0 Hl) in Q1.
+  exists r', src', evs. split; [exact Q1|]. split; [exact Q2|]. split; [exact Q3|]. split; [exact Q4|].
+  rewrite <- app_assoc in Q5. cbn [app] in Q5. apply app_inv_head in Q5. injection Q5 as Q5. exact Q5.
+Qed.
+
+(* a line that the scanner consumes *)
+Lemma loop_line_consumed : forall f s r src fw tr n l rest0 s1,
+  state_eqb (st s) done = false -> no_byte LF l = true ->
+  scan s (l ++ [LF]) = Ok (s1, true, None) ->
+  rinv_s r src -> stall_free (sched src) -> stream r src = (l ++ [LF]) ++ rest0 ->
+  exists r' src' tr',
+    scan_loop (S f) (mkLoop s r src fw tr n) = scan_loop f (mkLoop s1 r' src' fw tr' (S n)) /\
+    rinv_s r' src' /\ stall_free (sched src') /\ final src' = final src /\ stream r' src' = rest0.
+Proof.
+  intros f s r src fw tr n l rest0 s1 Hd Hl Hscan Hr Hsf Hs.
+  destruct (read_complete_line r src l rest0 Hr Hsf Hl Hs) as (r' & src' & evs & Q1 & Q2 & Q3 & Q4 & Q5).
+  exists r', src', ((tr ++ evs) ++ [EvLine (l ++ [LF])]).
+  split; [|tauto].
+  rewrite scan_loop_S. cbn [l_ss l_r l_src l_fwd l_trace l_lines]. rewrite Hd, Q1. cbv zeta.
+  destruct (l ++ [LF]) as [|x t] eqn:E; [destruct l; discriminate E|].
+  rewrite Hscan. reflexivity.
+Qed.
+
+(* a line that the scanner, looking for a dump, passes on *)
+Lemma loop_line_forwarded : forall f r src fw tr n l rest0,
+  no_byte LF l = true -> scan ss0 (l ++ [LF]) = Ok (ss0, false, None) ->
+  rinv_s r src -> stall_free (sched src) -> stream r src = (l ++ [LF]) ++ rest0 ->
+  exists r' src' tr',
+    scan_loop (S f) (mkLoop ss0 r src fw tr n) = scan_loop f (mkLoop ss0 r' src' (fw ++ l ++ [LF]) tr' (S n)) /\
+    rinv_s r' src' /\ stall_free (sched src') /\ final src' = final src /\ stream r' src' = rest0.
+Proof.
+  intros f r src fw tr n l rest0 Hl Hscan Hr Hsf Hs.
+  destruct (read_complete_line r src l rest0 Hr Hsf Hl Hs) as (r' & src' & evs & Q1 & Q2 & Q3 & Q4 & Q5).
+  exists r', src', (((tr ++ evs) ++ [EvLine (l ++ [LF])]) ++ [EvWrite (l ++ [LF])]).
+  split; [|tauto].
+  rewrite scan_loop_S. cbn [l_ss l_r l_src l_fwd l_trace l_lines].
+  change (state_eqb (st ss0) done) with false. cbv iota. rewrite Q1. cbv zeta.
+  destruct (l ++ [LF]) as [|x t] eqn:E; [destruct l; discriminate E|].
+  rewrite Hscan. reflexivity.
+Qed.
+
+Lemma text_of_cons : forall l ls, text_of (l :: ls) = (l ++ [LF]) ++ text_of ls.
+Proof. reflexivity. Qed.
+
+Lemma text_of_length : forall ls, (List.length ls <= List.length (text_of ls))%nat.
+Proof.
+  induction ls as [|l ls IH]; [apply le_n|].
+  rewrite text_of_cons, !app_length. cbn [List.length]. lia.
+Qed.
+
+(* a line of surrounding text: complete, and passed on by a scanner that is
+   looking for a dump (neither a goroutine header nor the race separator) *)
+Definition junk_line (l : bytes) : Prop :=
+  no_byte LF l = true /\ scan ss0 (l ++ [LF]) = Ok (ss0, false, None).
+
+Lemma loop_junk : forall blines f r src fw tr n rest0,
+  Forall junk_line blines ->
+  rinv_s r src -> stall_free (sched src) -> stream r src = text_of blines ++ rest0 ->
+  exists r' src' tr',
+    scan_loop (List.length blines + f) (mkLoop ss0 r src fw tr n) =
+    scan_loop f (mkLoop ss0 r' src' (fw ++ text_of blines) tr' (List.length blines + n)) /\
+    rinv_s r' src' /\ stall_free (sched src') /\ final src' = final src /\ stream r' src' = rest0.
+Proof.
+  induction blines as [|l blines IH]; intros f r src fw tr n rest0 Hall Hr Hsf Hs.
+  - exists r, src, tr. cbn [List.length Nat.add text_of map List.concat app] in *. rewrite app_nil_r. tauto.
+  - inversion Hall as [|l' ls' [Hl Hscan] Hrest]; subst.
+    rewrite text_of_cons, <- app_assoc in Hs.
+    destruct (loop_line_forwarded (List.length blines + f) r src fw tr n l (text_of blines ++ rest0)
+                Hl Hscan Hr Hsf Hs) as (r1 & src1 & tr1 & E1 & R1 & SF1 & F1 & S1).
+    destruct (IH f r1 src1 (fw ++ l ++ [LF]) tr1 (S n) rest0 Hrest R1 SF1 S1)
+      as (r2 & src2 & tr2 & E2 & R2 & SF2 & F2 & S2).
+    exists r2, src2, tr2. split; [|split; [exact R2|split; [exact SF2|split; [congruence|exact S2]]]].
+    cbn [List.length Nat.add]. rewrite E1, E2, text_of_cons, <- !app_assoc.
+    replace (List.length blines + S n)%nat with (S (List.length blines + n)) by lia. reflexivity.
+Qed.
+
+Lemma loop_steps : forall lines s sfin, Steps s lines sfin ->
+  forall f r src fw tr n rest0,
+  rinv_s r src -> stall_free (sched src) -> stream r src = text_of lines ++ rest0 ->
+  exists r' src' tr',
+    scan_loop (List.length lines + f) (mkLoop s r src fw tr n) =
+    scan_loop f (mkLoop sfin r' src' fw tr' (List.length lines + n)) /\
+    rinv_s r' src' /\ stall_free (sched src') /\ final src' = final src /\ stream r' src' = rest0.
+Proof.
+  intros lines s sfin H. induction H as [s|s l s1 ls s' Hd Hl Hscan Hsteps IH]; intros f r src fw tr n rest0 Hr Hsf Hs.
+  - exists r, src, tr. cbn [List.length Nat.add text_of map List.concat app] in *. tauto.
+  - rewrite text_of_cons, <- app_assoc in Hs.
+    destruct (loop_line_consumed (List.length ls + f) s r src fw tr n l (text_of ls ++ rest0) s1
+                Hd Hl Hscan Hr Hsf Hs) as (r1 & src1 & tr1 & E1 & R1 & SF1 & F1 & S1).
+    destruct (IH f r1 src1 fw tr1 (S n) rest0 R1 SF1 S1) as (r2 & src2 & tr2 & E2 & R2 & SF2 & F2 & S2).
+    exists r2, src2, tr2. split; [|split; [exact R2|split; [exact SF2|split; [congruence|exact S2]]]].
+    cbn [List.length Nat.add]. rewrite E1, E2.
+    replace (List.length ls + S n)%nat with (S (List.length ls + n)) by lia. reflexivity.
+Qed.
+
+Lemma print_race_text : forall r, print_race r = text_of (race_lines r).
+Proof. reflexivity. Qed.
+
+(* C08, modulo the frame-level round trip (race_ok asks frame_rt of every
+   frame): a report printed between complete lines of other text and any
+   text after it, delivered by any stall-free schedule *)
+Theorem fidelity_frames : forall r blines after sigma f,
+  race_ok r -> Forall junk_line blines -> stall_free sigma ->
+  exists res,
+    scan_snapshot false (mkSource (text_of blines ++ print_race r ++ after) sigma f) = Ok res /\
+    snap res = Some (race_snapshot_of r) /\
+    fwd res = text_of blines /\
+    suffix res ++ rest (unread res) = after /\
+    rerr_out res = ENil /\
+    final_state res = done /\
+    lines_read res = (List.length blines + List.length (race_lines r))%nat.
+Proof.
+  intros r blines after sigma f Hok Hjunk Hsf.
+  destruct (race_steps r Hok) as (idx & Hsteps).
+  set (B := text_of blines ++ print_race r ++ after).
+  unfold scan_snapshot. cbn [rest].
+  set (nb := List.length blines). set (nr := List.length (race_lines r)).
+  assert (Hfuel : exists f0, S (S (List.length B)) = (nb + (nr + S f0))%nat).
+  { exists (S (List.length B) - nb - nr)%nat.
+    pose proof (text_of_length blines) as H1. pose proof (text_of_length (race_lines r)) as H2.
+    unfold B. rewrite !app_length, print_race_text. fold nb nr in H1, H2 |- *. lia. }
+  destruct Hfuel as (f0 & ->).
+  destruct (loop_junk blines (nr + S f0) reader0 (mkSource B sigma f) [] [] 0%nat (print_race r ++ after) Hjunk
+              (rinv_s_reader0 _) Hsf eq_refl) as (r1 & src1 & tr1 & E1 & R1 & SF1 & F1 & S1).
+  fold nb in E1. rewrite E1.
+  rewrite print_race_text in S1.
+  destruct (loop_steps (race_lines r) ss0 _ Hsteps (S f0) r1 src1 ([] ++ text_of blines) tr1 (nb + 0)%nat after
+              R1 SF1 S1) as (r2 & src2 & tr2 & E2 & R2 & SF2 & F2 & S2).
+  fold nr in E2. rewrite E2, scan_loop_S. cbn [l_ss st]. change (state_eqb done done) with true. cbv iota.
+  eexists. split; [reflexivity|].
+  cbn [l_ss l_r l_src l_fwd l_trace l_lines goroutines st snap fwd suffix unread rerr_out final_state lines_read].
+  change (state_eqb done done) with true. cbv iota.
+  split.
+  - destruct Hok as (Hne & _). unfold race_snapshot_of. destruct (pr_ops r); [congruence|reflexivity].
+  - split; [reflexivity|]. split; [exact S2|]. split; [reflexivity|]. split; [reflexivity|].
+    unfold nb, nr. lia.
+Qed.
+
+(* ------------------------------------------------------------------ *)
+(* 14. from the computable well-formedness predicates                  *)
+(* ------------------------------------------------------------------ *)
+
+(* the frame-level round trip follows from wf_frame by the line lemmas of C01 *)
+Lemma wf_frame_rt : forall f, wf_frame (FISpaces 6) f = true -> frame_rt f.
+Proof.
+  intros f Hwf.
+  destruct (RoundTripScan.wf_frame_spec _ _ Hwf) as (Hs & Ha & Hfile & Hline).
+  assert (Htrim : trim_left_space (race_func_line f) = print_func_line (pf_sym f) (pf_args f) (pf_elided f)).
+  { unfold race_func_line, print_func_line.
+    pose proof (RoundTripLines.sym_raw_nonempty _ Hs) as Hne.
+    pose proof (RoundTripLines.sym_raw_nosp _ Hs) as Hnosp.
+    destruct (sym_raw (pf_sym f)) as [|x t]; [congruence|].
+    cbn [forallb] in Hnosp. apply andb_true_iff in Hnosp as [Hx _].
+    change (s2b "  " ++ (x :: t) ++ s2b "(" ++ print_args (pf_args f) (pf_elided f) ++ s2b ")")
+      with (32 :: 32 :: x :: (t ++ s2b "(" ++ print_args (pf_args f) (pf_elided f) ++ s2b ")")).
+    cbn [trim_left_space]. change (is_space_tab 32) with true. cbv iota.
+    assert (Hst : is_space_tab x = false).
+    { unfold RoundTripLines.nosp in Hx. apply negb_true_iff in Hx.
+      unfold is_space_tab. rewrite (N.eqb_sym x 32), (N.eqb_sym x 9).
+      apply orb_false_iff in Hx as [Hx H32]. apply orb_false_iff in Hx as [Hx _].
+      apply orb_false_iff in Hx as [H9 _].
+      rewrite (N.eqb_sym 32 x), (N.eqb_sym 9 x), H9, H32. reflexivity. }
+    rewrite Hst. reflexivity. }
+  split; [|split].
+  - exists (RoundTripScan.pre_call (pf_sym f) (pf_args f) (pf_elided f)). split.
+    + rewrite Htrim. apply RoundTripScan.parse_func_print; assumption.
+    + unfold race_file_line, RoundTripScan.pre_call, call_of_frame.
+      apply RoundTripLines.parse_file_print; [exact Hfile|cbn; lia|exact Hline].
+  - unfold race_func_line. rewrite no_byte_app.
+    rewrite (RoundTripScan.func_line_no_lf _ _ _ Hs). reflexivity.
+  - unfold race_file_line. apply RoundTripScan.file_line_no_lf. exact Hfile.
+Qed.
+
+Lemma forallb_Forall : forall (A : Type) (p : A -> bool) (P : A -> Prop) l,
+  (forall x, p x = true -> P x) -> forallb p l = true -> Forall P l.
+Proof.
+  intros A p P l H Hl. apply Forall_forall. intros x Hx.
+  rewrite forallb_forall in Hl. apply H, Hl, Hx.
+Qed.
+
+Lemma wf_race_frames_ok : forall fs, wf_race_frames fs = true -> fs <> [] /\ Forall frame_rt fs.
+Proof.
+  intros fs H. unfold wf_race_frames in H. apply andb_true_iff in H as [H1 H2]. split.
+  - destruct fs; [discriminate H1|discriminate].
+  - exact (forallb_Forall _ _ _ fs wf_frame_rt H2).
+Qed.
+
+Lemma wf_race_op_ok : forall op, wf_race_op op = true -> op_ok op.
+Proof.
+  intros op H. unfold wf_race_op in H. apply andb_true_iff in H as [H H3]. apply andb_true_iff in H as [H1 H2].
+  unfold wf_num in H1. apply N.ltb_lt in H1. apply N.ltb_lt in H2.
+  destruct (wf_race_frames_ok _ H3) as [H4 H5]. unfold op_ok. tauto.
+Qed.
+
+Lemma wf_race_creation_ok : forall ops c,
+  forallb wf_race_op ops = true -> wf_race_creation ops c = true -> creation_ok ops c.
+Proof.
+  intros ops c Hops H. unfold wf_race_creation in H. apply andb_true_iff in H as [H1 H2].
+  destruct (wf_race_frames_ok _ H2) as [H3 H4]. unfold creation_ok.
+  split; [|tauto].
+  (* the id of a creation section is the id of an operation, hence < 10^18 *)
+  apply existsb_exists in H1. destruct H1 as (op & Hin & Heq). apply N.eqb_eq in Heq. rewrite <- Heq.
+  rewrite forallb_forall in Hops. specialize (Hops op Hin).
+  destruct (wf_race_op_ok op Hops) as (_ & Hg & _). exact Hg.
+Qed.
+
+Theorem wf_race_ok : forall r, wf_race r = true -> race_ok r.
+Proof.
+  intros r H. unfold wf_race in H.
+  apply andb_true_iff in H as [H H5]. apply andb_true_iff in H as [H H4].
+  apply andb_true_iff in H as [H H3]. apply andb_true_iff in H as [H1 H2].
+  unfold race_ok. split; [|split; [|split; [|split]]].
+  - destruct (pr_ops r); [discriminate H1|discriminate].
+  - exact (forallb_Forall _ _ _ _ wf_race_op_ok H2).
+  - exact H3.
+  - destruct (pr_creations r); [discriminate H4|discriminate].
+  - exact (forallb_Forall _ _ _ _ (fun c => wf_race_creation_ok (pr_ops r) c H2) H5).
+Qed.
+
+(* surrounding text, computably: a line without LF which, after the removal
+   of one trailing CR, is neither accepted as a goroutine header nor equal
+   to the race separator *)
+Definition trim_cr (l : bytes) : bytes :=
+  match strip_suffix [CR] l with Some t => t | None => l end.
+
+Definition junk_ok (l : bytes) : bool :=
+  no_byte LF l &&
+  (match try_header ss0 (trim_cr l) with Some _ => false | None => true end) &&
+  negb (beq (trim_cr l) race_header_footer).
+
+Lemma scan_tr_trim_cr : forall s l, scan_tr s (l ++ [LF]) = Some (trim_cr l).
+Proof.
+  intros s l. unfold trim_cr, strip_suffix at 1.
+  destruct (has_suffix l [CR]) eqn:E.
+  - destruct (has_suffix_spec _ _ E) as (a & ->).
+    rewrite app_length. cbn [List.length].
+    replace (List.length a + 1 - 1)%nat with (List.length a) by lia.
+    rewrite firstn_app_exact. unfold scan_tr.
+    rewrite <- app_assoc. change ([CR] ++ [LF]) with [CR; LF]. rewrite strip_suffix_app. reflexivity.
+  - apply scan_tr_lf. intros a C. subst l. rewrite has_suffix_app in E. discriminate E.
+Qed.
+
+Lemma junk_ok_line : forall l, junk_ok l = true -> junk_line l.
+Proof.
+  intros l H. unfold junk_ok in H. apply andb_true_iff in H as [H H3]. apply andb_true_iff in H as [H1 H2].
+  split; [exact H1|].
+  rewrite scan_unfold, scan_tr_trim_cr, (scan_pre_noprefix ss0 _ eq_refl).
+  unfold scan_body. change (st ss0) with looking. cbv iota. unfold header_or_end.
+  destruct (try_header ss0 (trim_cr l)); [discriminate H2|].
+  apply negb_true_iff in H3. rewrite H3, andb_false_r. reflexivity.
+Qed.
+
+(* C08 race report parse fidelity *)
+Theorem fidelity : forall r blines after sigma f,
+  wf_race r = true -> forallb junk_ok blines = true -> stall_free sigma ->
+  exists res,
+    scan_snapshot false (mkSource (text_of blines ++ print_race r ++ after) sigma f) = Ok res /\
+    snap res = Some (race_snapshot_of r) /\
+    fwd res = text_of blines /\
+    suffix res ++ rest (unread res) = after /\
+    rerr_out res = ENil /\
+    final_state res = done /\
+    lines_read res = (List.length blines + List.length (race_lines r))%nat.
+Proof.
+  intros r blines after sigma f Hwf Hjunk Hsf.
+  apply fidelity_frames; [apply wf_race_ok; exact Hwf| |exact Hsf].
+  exact (forallb_Forall _ _ _ _ junk_ok_line Hjunk).
+Qed.
+
+(* ------------------------------------------------------------------ *)
+(* 15. the shape on which printer and scanner disagree: a report       *)
+(*     without any creation section                                    *)
+(* ------------------------------------------------------------------ *)
+
+(* a line that the scanner rejects with an error, outside [looking] *)
+Lemma loop_line_rejected : forall f s r src fw tr n l rest0 s1 e,
+  state_eqb (st s) done = false -> no_byte LF l = true ->
+  scan s (l ++ [LF]) = Ok (s1, false, Some e) -> state_eqb (st s1) looking = false ->
+  rinv_s r src -> stall_free (sched src) -> stream r src = (l ++ [LF]) ++ rest0 ->
+  exists ls' sfx,
+    scan_loop (S f) (mkLoop s r src fw tr n) = Ok (ls', EScan e, Some sfx) /\
+    l_ss ls' = s1 /\ l_fwd ls' = fw /\ l_lines ls' = S n /\
+    sfx ++ rest (l_src ls') = (l ++ [LF]) ++ rest0.
+Proof.
+  intros f s r src fw tr n l rest0 s1 e Hd Hl Hscan Hnl Hr Hsf Hs.
+  destruct (read_complete_line r src l rest0 Hr Hsf Hl Hs) as (r' & src' & evs & Q1 & Q2 & Q3 & Q4 & Q5).
+  rewrite scan_loop_S. cbn [l_ss l_r l_src l_fwd l_trace l_lines]. rewrite Hd, Q1. cbv zeta.
+  destruct (l ++ [LF]) as [|x t] eqn:E; [destruct l; discriminate E|].
+  rewrite Hscan, Hnl. cbn [negb io_is_nil_or_eof].
+  eexists. eexists. split; [reflexivity|]. cbn [l_ss l_fwd l_lines l_src].
+  split; [reflexivity|]. split; [reflexivity|]. split; [reflexivity|].
+  rewrite <- app_assoc. unfold stream in Q5. rewrite Q5. reflexivity.
+Qed.
+
+Lemma text_of_app : forall a b, text_of (a ++ b) = text_of a ++ text_of b.
+Proof. intros a b. unfold text_of. rewrite map_app, concat_app. reflexivity. Qed.
+
+(* ScanSnapshot on: surrounding lines, lines L that the scanner consumes
+   from the initial state up to a state sB, then a line that it rejects in sB
+   with an error *)
+Lemma rejected_after_steps : forall blines L sB l e after sigma f,
+  Steps ss0 L sB -> goroutines sB <> [] ->
+  state_eqb (st sB) done = false -> state_eqb (st sB) looking = false ->
+  no_byte LF l = true -> scan sB (l ++ [LF]) = Ok (sB, false, Some e) ->
+  forallb junk_ok blines = true -> stall_free sigma ->
+  exists res,
+    scan_snapshot false (mkSource (text_of blines ++ text_of L ++ (l ++ [LF]) ++ after) sigma f) = Ok res /\
+    snap res = Some (goroutines sB) /\
+    fwd res = text_of blines /\
+    suffix res ++ rest (unread res) = (l ++ [LF]) ++ after /\
+    rerr_out res = EScan e /\
+    final_state res = st sB.
+Proof.
+  intros blines L sB l e after sigma f Hsteps Hgs Hnd Hnl Hl Hscan Hjunk Hsf.
+  set (B := text_of blines ++ text_of L ++ (l ++ [LF]) ++ after).
+  unfold scan_snapshot. cbn [rest].
+  set (nb := List.length blines). set (nr := List.length L).
+  assert (Hfuel : exists f0, S (S (List.length B)) = (nb + (nr + S f0))%nat).
+  { exists (S (List.length B) - nb - nr)%nat.
+    pose proof (text_of_length blines) as H1. pose proof (text_of_length L) as H2.
+    unfold B. rewrite !app_length. fold nb nr in H1, H2 |- *. lia. }
+  destruct Hfuel as (f0 & ->).
+  destruct (loop_junk blines (nr + S f0) reader0 (mkSource B sigma f) [] [] 0%nat
+              (text_of L ++ (l ++ [LF]) ++ after)
+              (forallb_Forall _ _ _ _ junk_ok_line Hjunk) (rinv_s_reader0 _) Hsf eq_refl)
+    as (r1 & src1 & tr1 & E1 & R1 & SF1 & F1 & S1).
+  fold nb in E1. rewrite E1.
+  destruct (loop_steps L ss0 sB Hsteps (S f0) r1 src1 ([] ++ text_of blines) tr1 (nb + 0)%nat
+              ((l ++ [LF]) ++ after) R1 SF1 S1) as (r2 & src2 & tr2 & E2 & R2 & SF2 & F2 & S2).
+  fold nr in E2. rewrite E2.
+  destruct (loop_line_rejected f0 sB r2 src2 ([] ++ text_of blines) tr2 (nr + (nb + 0))%nat l after
+              sB e Hnd Hl Hscan Hnl R2 SF2 S2) as (ls' & sfx & E3 & H1 & H2 & H3 & H4).
+  rewrite E3. eexists. split; [reflexivity|].
+  cbn [snap fwd suffix unread rerr_out final_state]. rewrite H1, H2.
+  split; [destruct (goroutines sB); [congruence|reflexivity]|].
+  split; [reflexivity|]. split; [exact H4|]. split; reflexivity.
+Qed.
+
+(* With no creation section the closing separator comes right after the
+   blank line of the last operation section.  There the scanner accepts an
+   operation header or a creation header only: the goroutines are those the
+   report denotes, but ScanSnapshot returns an error (expected a creation
+   header), stays in betweenRaceOperations and hands the separator back. *)
+Theorem no_creation_section : forall ops blines after sigma f,
+  ops <> [] -> forallb wf_race_op ops = true -> forallb junk_ok blines = true -> stall_free sigma ->
+  exists res,
+    scan_snapshot false (mkSource (text_of blines ++ print_race (mkPRace ops []) ++ after) sigma f) = Ok res /\
+    snap res = Some (race_snapshot_of (mkPRace ops [])) /\
+    fwd res = text_of blines /\
+    suffix res ++ rest (unread res) = (race_separator ++ [LF]) ++ after /\
+    rerr_out res = EScan (ErrExpected 10) /\
+    final_state res = betweenRaceOperations.
+Proof.
+  intros ops blines after sigma f Hne Hwf Hjunk Hsf.
+  destruct ops as [|op ops]; [congruence|].
+  destruct (ops_steps op ops (forallb_Forall _ _ _ _ wf_race_op_ok Hwf)) as (idx & Hsteps).
+  set (L := [race_separator; race_warning] ++ race_ops_lines (op :: ops)) in *.
+  assert (HL : race_lines (mkPRace (op :: ops) []) = L ++ [race_separator]).
+  { unfold race_lines, L. cbn [pr_ops pr_creations race_creations_lines].
+    change (([] : list bytes) ++ [race_separator]) with [race_separator]. rewrite app_assoc. reflexivity. }
+  assert (HP : print_race (mkPRace (op :: ops) []) ++ after = text_of L ++ (race_separator ++ [LF]) ++ after).
+  { rewrite print_race_text, HL, text_of_app. unfold text_of at 2. cbn [map List.concat].
+    rewrite app_nil_r, <- app_assoc. reflexivity. }
+  rewrite HP.
+  set (sB := mkSS (race_snapshot_of (mkPRace (op :: ops) [])) betweenRaceOperations [] idx) in *.
+  exact (rejected_after_steps blines L sB race_separator (ErrExpected 10) after sigma f Hsteps
+           ltac:(discriminate) eq_refl eq_refl eq_refl eq_refl Hjunk Hsf).
+Qed.
+
+(* ------------------------------------------------------------------ *)
+(* 16. a report with a creation section for an unknown goroutine       *)
+(* ------------------------------------------------------------------ *)
+
+Lemma race_creations_lines_app : forall cs1 cs2, cs1 <> [] -> cs2 <> [] ->
+  race_creations_lines (cs1 ++ cs2) = race_creations_lines cs1 ++ [[]] ++ race_creations_lines cs2.
+Proof.
+  induction cs1 as [|c1 cs1 IH]; intros cs2 H1 H2; [congruence|].
+  destruct cs1 as [|c1' cs1].
+  - cbn [app]. destruct cs2 as [|c2 cs2]; [congruence|]. reflexivity.
+  - change ((c1 :: c1' :: cs1) ++ cs2) with (c1 :: (c1' :: cs1) ++ cs2).
+    change (race_creations_lines (c1 :: (c1' :: cs1) ++ cs2))
+      with (race_creation_lines c1 ++ [[]] ++ race_creations_lines ((c1' :: cs1) ++ cs2)).
+    rewrite (IH cs2 ltac:(discriminate) H2).
+    change (race_creations_lines (c1 :: c1' :: cs1))
+      with (race_creation_lines c1 ++ [[]] ++ race_creations_lines (c1' :: cs1)).
+    rewrite <- !app_assoc. reflexivity.
+Qed.
+
+Lemma race_creations_lines_hd : forall c cs,
+  race_creations_lines (c :: cs) =
+  print_creation_header (rc_gid c) (rc_running c) :: tl (race_creations_lines (c :: cs)).
+Proof. intros c [|c2 cs]; reflexivity. Qed.
+
+Lemma gl_ids : forall cs ops first g, In g (gl cs first ops) ->
+  exists op, In op ops /\ ID g = Z.of_N (ro_gid op).
+Proof.
+  intros cs ops. induction ops as [|op ops IH]; intros first g H; [contradiction|].
+  cbn [gl] in H. destruct H as [H|H].
+  - exists op. split; [left; reflexivity|]. rewrite <- H. apply race_goroutine_of_ID.
+  - destruct (IH false g H) as (op' & Hin & Hid). exists op'. split; [right; exact Hin|exact Hid].
+Qed.
+
+(* The report has well-formed operations, well-formed creation sections cs1,
+   then a section for a goroutine that took part in no operation (and
+   anything after it).  ScanSnapshot stops at the header of that section
+   with an error; the goroutines are those of the report up to cs1: the
+   section is attributed to no goroutine. *)
+Theorem unknown_creator_report : forall ops cs1 c cs2 blines after sigma f,
+  ops <> [] -> forallb wf_race_op ops = true -> distinct_N (map ro_gid ops) = true ->
+  forallb (wf_race_creation ops) cs1 = true ->
+  wf_num (rc_gid c) = true -> existsb (fun op => ro_gid op =? rc_gid c) ops = false ->
+  forallb junk_ok blines = true -> stall_free sigma ->
+  exists res,
+    scan_snapshot false
+      (mkSource (text_of blines ++ print_race (mkPRace ops (cs1 ++ c :: cs2)) ++ after) sigma f) = Ok res /\
+    snap res = Some (race_snapshot_of (mkPRace ops cs1)) /\
+    fwd res = text_of blines /\
+    suffix res ++ rest (unread res) =
+      text_of (race_creations_lines (c :: cs2) ++ [race_separator]) ++ after /\
+    rerr_out res = EScan (ErrRace 2) /\
+    final_state res = match cs1 with [] => betweenRaceOperations | _ => betweenRaceGoroutines end.
+Proof.
+  intros ops cs1 c cs2 blines after sigma f Hne Hwf Hd Hcs Hn Hex Hjunk Hsf.
+  destruct ops as [|op ops]; [congruence|].
+  destruct (ops_steps op ops (forallb_Forall _ _ _ _ wf_race_op_ok Hwf)) as (i1 & S1).
+  rewrite snapshot_gl in S1.
+  set (OPS := op :: ops) in *.
+  set (L0 := [race_separator; race_warning] ++ race_ops_lines OPS) in *.
+  set (hdr := print_creation_header (rc_gid c) (rc_running c)).
+  set (tail := tl (race_creations_lines (c :: cs2)) ++ [race_separator]).
+  (* the state in which the header of c is read, and the lines before it *)
+  assert (HB : exists L idx,
+            Steps ss0 L (mkSS (gl cs1 true OPS)
+                              (match cs1 with [] => betweenRaceOperations | _ => betweenRaceGoroutines end) [] idx) /\
+            race_lines (mkPRace OPS (cs1 ++ c :: cs2)) = L ++ [hdr] ++ tail).
+  { destruct cs1 as [|c1 cs1'] eqn:Ecs.
+    - exists L0, i1. split; [exact S1|].
+      unfold race_lines, L0, tail, hdr. cbn [pr_ops pr_creations app].
+      rewrite (race_creations_lines_hd c cs2). reflexivity.
+    - destruct (creations_steps OPS (c1 :: cs1') [] betweenRaceOperations i1 (or_introl eq_refl) Hd
+                  ltac:(discriminate) (forallb_Forall _ _ _ _ (fun x => wf_race_creation_ok OPS x Hwf) Hcs))
+        as (i2 & S2).
+      cbn [app] in S2.
+      exists (L0 ++ race_creations_lines (c1 :: cs1') ++ [[]]), i2. split.
+      + apply (Steps_app _ _ _ _ _ S1). apply (Steps_app _ _ _ _ _ S2).
+        apply Steps_one; reflexivity.
+      + unfold race_lines, L0, tail, hdr. cbn [pr_ops pr_creations].
+        rewrite (race_creations_lines_app (c1 :: cs1') (c :: cs2)) by discriminate.
+        rewrite (race_creations_lines_hd c cs2). rewrite <- !app_assoc. reflexivity. }
+  destruct HB as (L & idx & Hsteps & HL).
+  set (sB := mkSS (gl cs1 true OPS)
+                  (match cs1 with [] => betweenRaceOperations | _ => betweenRaceGoroutines end) [] idx) in *.
+  assert (Hscan : scan sB (hdr ++ [LF]) = Ok (sB, false, Some (ErrRace 2))).
+  { apply unknown_creator.
+    - destruct cs1; [right|left]; reflexivity.
+    - reflexivity.
+    - unfold wf_num in Hn. apply N.ltb_lt. exact Hn.
+    - intros g Hg C. destruct (gl_ids _ _ _ _ Hg) as (op' & Hin & Hid).
+      rewrite Hid in C. apply N2Z.inj in C.
+      assert (Ht : existsb (fun op0 => ro_gid op0 =? rc_gid c) OPS = true).
+      { apply existsb_exists. exists op'. split; [exact Hin|apply N.eqb_eq; exact C]. }
+      congruence. }
+  assert (HP : print_race (mkPRace OPS (cs1 ++ c :: cs2)) ++ after =
+               text_of L ++ (hdr ++ [LF]) ++ (text_of tail ++ after)).
+  { rewrite print_race_text, HL, !text_of_app. unfold text_of at 2. cbn [map List.concat]. unfold add_lf.
+    rewrite app_nil_r, <- !app_assoc. reflexivity. }
+  assert (HS : text_of (race_creations_lines (c :: cs2) ++ [race_separator]) ++ after =
+               (hdr ++ [LF]) ++ (text_of tail ++ after)).
+  { rewrite (race_creations_lines_hd c cs2). fold hdr.
+    change ((hdr :: tl (race_creations_lines (c :: cs2))) ++ [race_separator]) with (hdr :: tail).
+    rewrite text_of_cons, <- !app_assoc. reflexivity. }
+  rewrite HP, HS, snapshot_gl.
+  assert (Hnd : state_eqb (st sB) done = false) by (destruct cs1; reflexivity).
+  assert (Hnl : state_eqb (st sB) looking = false) by (destruct cs1; reflexivity).
+  exact (rejected_after_steps blines L sB hdr (ErrRace 2) (text_of tail ++ after) sigma f Hsteps
+           ltac:(discriminate) Hnd Hnl (creation_header_no_lf _ _) Hscan Hjunk Hsf).
 Qed.
